@@ -9,7 +9,7 @@ theorem setters_inv (cfg : Cfg) (s : St) (op : Op) (hop : isSetter op = true ∨
     (h : inv cfg s = true) :
     inv cfg (stepR cfg s op).1 = true ∧ ((stepR cfg s op).2.getD .ok).isAssertion = false
     ∧ (stepR cfg s op).1.hsDone = s.hsDone := by
-  obtain ⟨hasCache, state, locked, tracker, calling, status, tRef, pRef, specT, userT, specP, userP, lT, lP, hsS, hsE, hT, hP, raw, ts, shares, filled, held, done⟩ := s
+  obtain ⟨hasCache, state, locked, tracker, calling, status, tRef, pRef, specT, userT, specP, userP, lT, lP, hsS, hsE, hT, hP, raw, ts, shares, filled, held, done, bfresh⟩ := s
   obtain ⟨golang, custom, cT, cP, skip, disabled⟩ := cfg
   cases op with
   | setCache =>
@@ -38,5 +38,6 @@ theorem setters_inv (cfg : Cfg) (s : St) (op : Op) (hop : isSetter op = true ∨
   | buildNoSession => simp [isSetter] at hop
   | build lr => simp [isSetter] at hop
   | handshake lr => simp [isSetter] at hop
+  | edit => simp [isSetter] at hop
 
 end SessionCtl
